@@ -9,6 +9,7 @@ type ReplayFn = fn(&Ctx, &str, &serde_json::Value);
 fn table() -> Vec<(&'static str, &'static str, RunFn, ReplayFn)> {
     vec![
         ("C01", "exploration", props::c01::run, props::c01::replay),
+        ("C02", "exploration", props::c02::run, props::c02::replay),
         ("C03", "exploration", props::c03::run, props::c03::replay),
         ("C04", "exploration", props::c04::run, props::c04::replay),
         ("C07", "exploration", props::c07::run, props::c07::replay),
